@@ -22,7 +22,11 @@ META = dict(
           "as it was or empty: from a state at rest nothing stays saved [saved_parameters_frame, saved_parameters_released_at_rest]. The RAII discipline the model "
           "assumes is read off the source on every run (extract/e_raii.py -> Gen/Raii.lean): every call of a Stack_Holder push / pop primitive sits in the constructor / "
           "destructor of a guard struct [raii_primitives_only_in_guards], and for every AST node class the model covers the guard objects it constructs are exactly the "
-          "combinators `run` uses [guards_as_modelled]."),
+          "combinators `run` uses [guards_as_modelled]; the bodies of the six push / pop primitives and of the Stack_Holder helpers, read as lists of effects on "
+          "the scope list, stack list, saved-parameter list and call depth, compose to the model's pushScope / popScope / pushStack / popStack / enterCall / leaveCall "
+          "for every state, and the engine's wrappers only forward [primitives_are_the_model's, primitives_present]. Constructs outside the model (argument conversions, "
+          "dynamic objects and attribute-held functions called with method syntax, classes, bind, containers of functions, ranged-for, switch, prelude algorithms) are "
+          "run inside every scope-owning wrapper under the same model-free oracles."),
     note=("Trusted: Lean kernel, the evaluator model Model/Chai (hand-written from chaiscript_eval.hpp; RAII is modelled by combinators), gen/progs.py, "
           "harness/evalprog.cpp, hook commit (friend Access), extract/e_raii.py (a syntactic census: guard objects constructed per class, in textual order, not the control flow around them). Classes/methods, maps, ranged-for and bind are not in the model yet."),
     design_ref="DESIGN.md §6 C09")
